@@ -3,8 +3,8 @@ INVARIANT BleFragmentSize
 INVARIANT BleReassembly
 INVARIANT BleResponse
 INVARIANT RespConforms
-INVARIANT RespTerminates
 INVARIANT CoapRequestShape
 INVARIANT CoapAttribution
 INVARIANT CoapConforms
+POSTCONDITION ExportVerdicts
 CHECK_DEADLOCK FALSE
